@@ -39,6 +39,8 @@ def function(ip: Interp, fn: PyConst, args, kwargs, n):
         if args:
             info['msg'] = args[-1]
         return ip.new_exc(name, args, info=info)
+    if kind == 'record' and S.RECORD_MUTABLE.get(name) and name in ip.w.registry.classes:
+        return construct_z(ip, name, args, kwargs, n)
     if kind == 'record':
         fields = S.RECORD_FIELDS[name]
         vals = {}
@@ -60,6 +62,18 @@ def function(ip: Interp, fn: PyConst, args, kwargs, n):
         return t
     if kind == 'class':
         return construct(ip, name, args, kwargs, n)
+    if kind == 'spec' and fn.obj.name.startswith('uf_'):
+        # declared-only spec function: uninterpreted (its python body is used by the monitors only)
+        node = fn.obj
+        ret = ast.literal_eval(node.returns) if node.returns is not None else 'Val'
+        zargs = []
+        for a in args:
+            a = a.get() if isinstance(a, ZRec) else ip.z(a)
+            if not z3.is_expr(a):
+                ip.oos(f'argument of uninterpreted spec function {node.name}', n)
+            zargs.append(a)
+        f = ip.w.uf(node.name + '__' + '_'.join(str(a.sort()) for a in zargs), *[a.sort() for a in zargs], S.sort_of(ret))
+        return f(*zargs)
     if kind == 'spec':
         node = fn.obj
         clo = Closure(node, {}, None, None)
@@ -192,6 +206,33 @@ def function(ip: Interp, fn: PyConst, args, kwargs, n):
         ip.oos('ord of non-char', n)
     if name == 'old':
         return args[0]
+    if name == 'type':
+        (x,) = args
+        if isinstance(x, ZRec):
+            return PyConst('record', x.cls)
+        if isinstance(x, PRec):
+            return PyConst('class', x.cls)
+        if S.is_record(x):
+            return PyConst('record', S.record_name(x.sort()))
+        ip.oos('type() of this value', n)
+    if name in ('dict_with', 'dict_get', 'dict_has'):
+        d = args[0]
+        if isinstance(d, ZRec):
+            d = d.get()
+        if S.is_val(d):
+            keys, vals, mk = Val.dkeys(d), Val.dvals(d), lambda k, v: Val.vdict(k, v)
+        elif S.is_record(d):
+            rn = S.record_name(d.sort())
+            keys, vals = S.rec_get(d, 'dkeys'), S.rec_get(d, 'dvals')
+            mk = lambda k, v: S.rec_make(rn, dkeys=k, dvals=v)
+        else:
+            ip.oos(f'{name} on {type(d).__name__}', n)
+        k = ip.as_str(args[1], n)
+        if name == 'dict_has':
+            return z3.Select(keys, k)
+        if name == 'dict_get':
+            return z3.If(z3.Select(keys, k), z3.Select(vals, k), Val.none)
+        return mk(z3.Store(keys, k, True), z3.Store(vals, k, ip.to_val(args[2], n)))
     if name == 'print':
         return None
     if name == 'range':
@@ -233,6 +274,46 @@ def construct(ip: Interp, name, args, kwargs, n):
         return rec
     ip.call_closure(Closure(init, {}, where[0], where[1]), rec, args, kwargs, n)
     return rec
+
+
+def construct_z(ip: Interp, name, args, kwargs, n):
+    """instantiate a mutable z3 record class by interpreting its real __init__ on a fresh view."""
+    if 'dkeys' in S.rec_fields(name):
+        # dict subclasses (AST): AST() is empty, AST(mapping) a copy -- assumed contract of dict.__init__/update
+        empty = S.rec_make(name, dkeys=z3.K(z3.StringSort(), z3.BoolVal(False)), dvals=z3.K(z3.StringSort(), Val.none))
+        if not args and not kwargs:
+            return ZRec.detached(name, empty)
+        if len(args) == 1 and not kwargs:
+            src = args[0]
+            return ZRec.detached(name, ip.coerce_sort(src, S.RECORDS[name], n))
+        ip.oos(f'{name}(...) with these arguments', n)
+    vals = {f: _default_term(ip, fs, f'{name}.{f}') for f, fs in S.RECORD_FIELDS[name]}
+    rec = ZRec.detached(name, S.rec_make(name, **vals))
+    init, where = ip.find_method(name, '__init__')
+    if init is None:
+        ip.oos(f'no __init__ for {name}', n)
+    key = f'{where[0]}:{where[1]}.__init__'
+    c = ip.w.registry.get(key)
+    if c is not None:
+        ip.call_contract(c, rec, args, kwargs, n)
+        return rec
+    ip.call_closure(Closure(init, {}, where[0], where[1]), rec, args, kwargs, n)
+    return rec
+
+
+def _default_term(ip, sortname, hint):
+    srt = S.sort_of(sortname)
+    if srt == z3.IntSort():
+        return z3.IntVal(0)
+    if srt == z3.BoolSort():
+        return z3.BoolVal(False)
+    if srt == z3.StringSort():
+        return z3.StringVal('')
+    if srt == Val:
+        return Val.none
+    if isinstance(srt, z3.SeqSortRef):
+        return z3.Empty(srt)
+    return ip.p.fresh(hint, srt)
 
 
 def _default_field(ip, sortname, hint):
@@ -313,6 +394,9 @@ def _isinstance1(ip, x, cc: PyConst, n):
         if isinstance(x, (PRec, ZRec)):
             info = ip.w.registry.classes.get(x.cls, {})
             return x.cls == name or name in info.get('isa', [])
+        if S.is_record(x):
+            rn = S.record_name(x.sort())
+            return rn == name or name in ip.w.registry.classes.get(rn, {}).get('isa', [])
         if S.is_record(x):
             return S.record_name(x.sort()) == name
         if S.is_val(x):
@@ -574,9 +658,9 @@ def str_method(ip, s, name, args, n):
 
 def dict_method(ip: Interp, d, name, args, kwargs, n):
     """methods of the python-side dict models (`dkeys/dvals` map, `okeys/ovals` ordered map)."""
-    if not isinstance(d, PRec):
+    if not isinstance(d, (PRec, ZRec)):
         ip.oos('dict method on non-record', n)
-    if 'okeys' in d.f:
+    if isinstance(d, PRec) and 'okeys' in d.f:
         ks = d.f['okeys']
         ksort = ks.sort().basis()
         if name in ('super.__setitem__', '__setitem__'):
@@ -595,21 +679,29 @@ def dict_method(ip: Interp, d, name, args, kwargs, n):
         if name == 'super.__repr__':
             return ip.w.uf('dict_repr', z3.IntSort(), z3.StringSort())(z3.Length(ks))
         ip.oos(f'ordered-dict method {name}', n)
-    if 'dkeys' in d.f:
+    if ip.dictview(d) is not None:
+        gk, sk, gv, sv = ip.dictview(d)
         if name in ('get', 'super.get'):
             k = ip.as_str(args[0], n)
             default = args[1] if len(args) > 1 else None
-            return z3.If(z3.Select(d.f['dkeys'], k), z3.Select(d.f['dvals'], k), ip.coerce_sort(default, d.f['dvals'].sort().range(), n))
+            return z3.If(z3.Select(gk(), k), z3.Select(gv(), k), ip.coerce_sort(default, gv().sort().range(), n))
         if name in ('super.__setitem__', '__setitem__'):
             return ip.dict_setitem(d, args[0], args[1], n)
+        if name in ('super.__getitem__',):
+            return ip.dict_getitem(d, args[0], n)
+        if name in ('super.__delitem__',):
+            k = ip.as_str(args[0], n)
+            ip.p.oblige('safety', z3.Select(gk(), k), n, 'key present (KeyError)', tag='safety')
+            sk(z3.Store(gk(), k, False))
+            return None
         if name in ('super.__init__',):
             if args or kwargs:
                 ip.oos('dict.__init__ with arguments', n)
             return None
         if name == 'update' or name == 'super.update':
             (o,) = args
-            if isinstance(o, PRec) and 'dkeys' in o.f:
-                ok, ov = o.f['dkeys'], o.f['dvals']
+            if ip.dictview(o) is not None:
+                ok, ov = ip.dictview(o)[0](), ip.dictview(o)[2]()
             elif S.is_val(o):
                 ip.p.oblige('type', Val.is_vdict(o), n, 'update() from a dict value')
                 ok, ov = Val.dkeys(o), Val.dvals(o)
@@ -618,9 +710,10 @@ def dict_method(ip: Interp, d, name, args, kwargs, n):
             nk = ip.p.fresh('upd_keys', S.StrSet)
             nv = ip.p.fresh('upd_vals', S.StrMap)
             k = z3.String('k!upd')
-            ip.p.assume(z3.ForAll([k], z3.Select(nk, k) == z3.Or(z3.Select(d.f['dkeys'], k), z3.Select(ok, k))))
-            ip.p.assume(z3.ForAll([k], z3.Select(nv, k) == z3.If(z3.Select(ok, k), z3.Select(ov, k), z3.Select(d.f['dvals'], k))))
-            d.f['dkeys'], d.f['dvals'] = nk, nv
+            ip.p.assume(z3.ForAll([k], z3.Select(nk, k) == z3.Or(z3.Select(gk(), k), z3.Select(ok, k))))
+            ip.p.assume(z3.ForAll([k], z3.Select(nv, k) == z3.If(z3.Select(ok, k), z3.Select(ov, k), z3.Select(gv(), k))))
+            sk(nk)
+            sv(nv)
             return None
         ip.oos(f'dict method {name}', n)
     ip.oos('dict method on non-dict record', n)
